@@ -89,6 +89,13 @@ def rand_member(r, hostile=False, last=False):
             tgt = nm(r.choice([1, 5, 30]))
             if r.random() < 0.3:
                 tgt = tgt[:1] + b"|" + tgt[1:]        # (the name ends at the first '|'; the target may contain more of them)
+            if not hostile and r.random() < 0.4:
+                # a link entry under an OS type whose all-capitals names are folded to lower case: the fold is about the name (and path),
+                # never about the target, and is decided by the name alone
+                name = r.choice([b"LINK", b"README", b"UP_1", b"X", b"Mixed", b"UP.TXT"])
+                tgt = r.choice([b"TARGET", b"docs/Readme.txt", b"UP/low", b"T", b"lower", b"A|B"])
+                path = r.choice([b"", b"", b"DIR", b"Dir"])
+                os_ = r.choice([0, ord("M"), ord("2"), ord("a"), ord(" "), ord("U"), ord("w")])
             full = (path + b"/" if path else b"") + name.replace(b"|", b"_") + b"|" + tgt
             d, _, n = full.rpartition(b"/")
             exts += ([arc.x_name(n)] if n else []) + ([arc.x_path(d + b"/")] if d else [])
